@@ -44,7 +44,11 @@ def cases(tier, seed):
         kind = ['gauge_int', 'gauge', 'inflated', 'gauge_flat', 'gauss', 'gauge_int'][i % 6]
         ttm = i % 5 == 4
         n = rng.choice((3, 4))
-        cs.append({'gen': 'breakpoints', 'kind': kind, 'N': [n] * d if kind.startswith('gauge') else [rng.choice((2, 3, 4)) for _ in range(d)],
+        Ng = [n] * d
+        if kind.startswith('gauge') and i % 3 == 1 and d >= 3:
+            for _ in range(rng.randint(1, 2)):
+                Ng[rng.randrange(1, d - 1)] = 1          # interior singleton modes
+        cs.append({'gen': 'breakpoints', 'kind': kind, 'N': Ng if kind.startswith('gauge') else [rng.choice((2, 3, 4)) for _ in range(d)],
                    'M': ([1] * d if kind.startswith('gauge') else [rng.choice((1, 2)) for _ in range(d)]) if ttm else None,
                    'dtype': ['f64', 'c128', 'f64', 'f32'][i % 4], 'rmax': 'none', 'grid': 20 if not T else 40})
     return cs
@@ -95,7 +99,7 @@ def build(case, ctx, g):
         return ctx.call('sub', lambda p, q: p - q, t, a)
     # gauge*: superdiagonal tensor with prescribed spectrum, written as a TT by the harness, pushed through a gauge
     modes = [m * n for m, n in zip(M, N)] if M else list(N)
-    r = max(1, min(modes))
+    r = max(1, min([m for m in modes if m > 1] or [1]))      # spectrum lives on the non-singleton modes; singleton modes just pass the bond through
     if kind in ('gauge_int',):
         s = sorted([float(rr.randint(1, 6)) for _ in range(r)], reverse=True)
     elif kind == 'gauge_flat':
@@ -105,7 +109,7 @@ def build(case, ctx, g):
         s = [q ** j for j in range(r)]
     cores = []
     for k in range(d):
-        Q = gens.orth(modes[k], g, dn.up(dt))[:, :r]            # modes[k] x r, orthonormal columns
+        Q = gens.orth(modes[k], g, dn.up(dt))[:, :r] if modes[k] > 1 else torch.ones((1, r), dtype=dn.up(dt))    # singleton mode: identity on the bond
         rl = 1 if k == 0 else r
         rrk = 1 if k == d - 1 else r
         c = torch.zeros((rl, modes[k], rrk), dtype=dn.up(dt))
